@@ -160,6 +160,10 @@ func verifCanary(label string, cond bool) {}
 //@   ensures [C02:sticky] old(b.err) != nil ==> b.pos == old(b.pos) && b.err == old(b.err)
 //@   ensures [C02:inside] len(result) <= len(b.buf) - old(b.pos)
 //@   ensures [C01:advance] b.err == nil ==> b.pos == old(b.pos) + 4 + len(result)
+//@   ensures [C01:null-or-empty] old(b.err) == nil && len(b.buf) - old(b.pos) >= 4 && (le32(b.buf, old(b.pos)) == 0 || le32(b.buf, old(b.pos)) == 4294967295) ==>
+//@           b.err == nil && len(result) == 0
+//@   ensures [C01:ok] old(b.err) == nil && len(b.buf) - old(b.pos) >= 4 && le32(b.buf, old(b.pos)) != 0 && le32(b.buf, old(b.pos)) != 4294967295 &&
+//@           int(le32(b.buf, old(b.pos))) <= len(b.buf) - old(b.pos) - 4 ==> b.err == nil && len(result) == int(le32(b.buf, old(b.pos)))
 
 // Decoders (the BinaryDecoder interface and the reflection-driven ua.Decode) consume a prefix of
 // their input: on success the count they report lies inside the input. They write only the object
@@ -616,5 +620,71 @@ func verifRoundTripByteString(d []byte, k int) {
 	}
 	if d == nil {
 		verifAssert("C01:bytestring-null", got == nil)
+	}
+}
+
+// ---------------------------------------------------------------------------
+// C03: what was decoded can be re-encoded. Lemmas over the real codec for hand-written types: for ANY
+// input bytes (any mask byte, canonical or not), if Decode succeeds then Encode of the result succeeds,
+// produces exactly as many bytes as Decode consumed, and decoding those bytes again succeeds, consumes
+// all of them and yields the same mask and string lengths.
+// ---------------------------------------------------------------------------
+//@ func (*LocalizedText).Decode@inline
+//@   inline
+
+//@ func verifReencodeLocalizedText
+//@   props C03
+//@   bytes
+//@   use (*LocalizedText).Decode@inline
+//@   split want == 0
+//@   split want == 1
+//@   split want == 2
+//@   requires want <= 2   // both strings present: the same argument with a longer chain of writes; cvc5 needs 70 s for it, the quick limit is 20 s, so it is not claimed
+func verifReencodeLocalizedText(b []byte, want byte) {
+	if len(b) > 2147483647 {
+		return // a string longer than MaxInt32 decodes but is refused by the encoder: outside the lemma (messages are far smaller)
+	}
+	v := new(LocalizedText)
+	n, err := v.Decode(b)
+	if err != nil || v.EncodingMask&3 != want {
+		return
+	}
+	e, eerr := v.Encode()
+	verifAssert("C03:localizedtext-encodes-ok", eerr == nil)
+	verifAssert("C03:localizedtext-consumed-positive", n >= 1)
+	verifAssert("C03:localizedtext-encodes", len(e) == n)
+	w := new(LocalizedText)
+	m, derr := w.Decode(e)
+	verifAssert("C03:localizedtext-mask", w.EncodingMask == v.EncodingMask)
+	verifAssert("C03:localizedtext-redecodes", derr == nil)
+	verifAssert("C03:localizedtext-consumes-all", m == len(e))
+	verifAssert("C03:localizedtext-stable", len(w.Locale) == len(v.Locale) && len(w.Text) == len(v.Text))
+}
+
+//@ func (*NodeID).Decode@inline
+//@   inline
+
+// NodeID (all encodings but GUID, with any flag bits in the mask): decode, encode, decode again.
+//@ func verifReencodeNodeID
+//@   props C03
+//@   bytes
+//@   use (*NodeID).Decode@inline
+func verifReencodeNodeID(b []byte, k int) {
+	if len(b) > 2147483647 {
+		return
+	}
+	v := new(NodeID)
+	n, err := v.Decode(b)
+	if err != nil || v.Type() == NodeIDTypeGUID {
+		return
+	}
+	e, eerr := v.Encode()
+	verifAssert("C03:nodeid-encodes", eerr == nil && len(e) == n)
+	w := new(NodeID)
+	m, derr := w.Decode(e)
+	verifAssert("C03:nodeid-redecodes", derr == nil && m == len(e))
+	verifAssert("C03:nodeid-stable", w.mask == v.mask && w.ns == v.ns && w.nid == v.nid && len(w.bid) == len(v.bid))
+	if 0 <= k && k < len(v.bid) && k < len(w.bid) {
+		verifAssert("C03:nodeid-bytes", w.bid[k] == v.bid[k])
 	}
 }
